@@ -9,6 +9,7 @@ input fixes the structure to two default copies.  Not decided: end-to-end genoty
 """
 
 import ast
+import collections
 
 from sa.cfg import cfg_of
 from sa.dataflow import reaching
@@ -409,6 +410,8 @@ REF_SEQ = "ACGTTGCAACGG"  # reference bases at 0-based positions 100..111
 
 class RefGene:
     _fold_ok = True
+    chr = "22"
+    name = "G"
 
     def __getitem__(self, i):
         if isinstance(i, slice):
@@ -416,28 +419,27 @@ class RefGene:
         return REF_SEQ[i - 100] if 100 <= i < 100 + len(REF_SEQ) else "N"
 
     def get_wide_region(self):
-        return Obj(start=100, end=112, samtools=lambda prefix="": "r")
+        return Obj(start=100, end=112, samtools=lambda prefix="", **k: "r")
 
 
 def vcf_record(pos0, ref, alts, gt):
     return Obj(pos=pos0 + 1, ref=ref, alleles=tuple([ref] + list(alts)), samples={"S": {"GT": tuple(gt)}})
 
 
-def fold_records(f, records, multi=None):
-    """Lift the record converter and the record loop of _load_vcf and fold them on sample records."""
-    import collections as _c
+def fold_records(f, records, multi=None, samples=("S",), sample_idx=0):
+    """Sample._load_vcf folded whole on a variant-file stub holding `records`. The pseudo-read table is the routine's own
+    (500 bases around the gene's wide region); only the gene's window 100..111 is reported."""
+    from sa.fold import Lifted
 
-    conv = [n for n in f.body if isinstance(n, ast.FunctionDef)]
-    loop = _record_loop(f)
-    norm = {p: [(40, 40)] * 20 for p in range(100, 112)}
-    muts = _c.defaultdict(list)
-    me = Obj(gene=RefGene(), _multi_sites=dict(multi or {}), _prefix="")
-    env = {"self": me, "norm": norm, "muts": muts, "sample": "S", "vcf": Obj(fetch=lambda region=None: list(records))}
-    ev = Evaluator(env)
-    kind, val = ev.run(conv + [loop])
-    if kind == "raise":
-        raise Raised(val)
-    return {p: len(v) for p, v in norm.items()}, {k: len(v) for k, v in muts.items() if v}
+    me = Obj(gene=RefGene(), _multi_sites=dict(multi or {}), _prefix="", name=None)
+    vf = lambda path: Obj(header=Obj(contigs=["22"], samples=list(samples)), fetch=lambda region=None: list(records))  # noqa
+    fn = Lifted(f, funcs={"pysam.VariantFile": vf, "chr_prefix": lambda c, names: "", "os.path.abspath": lambda q: q,
+                          "defaultdict": collections.defaultdict})
+    out = fn(me, "in.vcf.gz", sample_idx)
+    if not (isinstance(out, tuple) and len(out) == 2):
+        raise Raised(f"loader returned {type(out).__name__}")
+    norm, muts = out
+    return {p: len(norm.get(p, [])) for p in range(100, 112)}, {k: len(v) for k, v in muts.items() if v}
 
 
 def r6(repo, res):
@@ -485,6 +487,21 @@ def r6(repo, res):
                       "from the RefSeq-derived reference are re-expressed against it; other shapes ignored",
                key=f"evidence:{label}")
     res.count("C16.R6:sample records folded", n)
+    # several samples in one file: the configured index selects the genotype column
+    rec2 = Obj(pos=103, ref="G", alleles=("G", "T"), samples={"S": {"GT": (0, 0)}, "T": {"GT": (1, 1)}, "U": {"GT": (0, 1)}})
+    rows = {}
+    try:
+        for idx in (0, 1, 2, 3):
+            try:
+                rows[idx] = fold_records(f, [rec2], None, samples=("S", "T", "U"), sample_idx=idx)[1]
+            except Raised as e:
+                rows[idx] = f"raise {e.kind}"
+    except Unfoldable as e:
+        res.err("C16.R6", f"_load_vcf outside folding language: {e}")
+        return
+    okm = rows == {0: {}, 1: {(102, "G>T"): 20}, 2: {(102, "G>T"): 10}, 3: "raise AldyException"}
+    res.ob("C16.R6", f, f, okm, expected="sample index 0/1/2 of a three-sample file reads that sample's genotype (0/0, 1/1, 0/1); index 3 is rejected with an error",
+           found=str(rows), clause="turns the genotype of the selected sample ... into evidence", key="evidence:sample-index")
     # the consumer must not let an all-zero indel table entry shadow the evidence of a VCF deletion
     init = repo.func("coverage::Coverage.__init__")
     res.analysed(init)
